@@ -108,6 +108,26 @@ def _engine_rules(ctx):
                     pass  # a construct of an engine helper that is not modelled: the seeding obligation above does not depend on it
 
 
+def tests_warm_start(c, obj=None):
+    """the condition tests the *value* of warm_start (`x.warm_start`, `x.warm_start and ..`, `not x.warm_start`, `x.warm_start is
+    True`), as opposed to mentioning it inside a call (`isinstance(x.warm_start, bool)` validates its type and guards nothing)"""
+    if not isinstance(c, T):
+        return False
+    if c.op == "attr" and c.args[1] == "warm_start" and (obj is None or c.args[0] is obj):
+        return True
+    if c.op in ("and", "or"):
+        return any(tests_warm_start(x, obj) for x in c.args[0])
+    if c.op == "not":
+        return tests_warm_start(c.args[0], obj)
+    if c.op == "cmp":
+        return tests_warm_start(c.args[1], obj) or tests_warm_start(c.args[2], obj)
+    if c.op in ("assume", "ite"):
+        return any(tests_warm_start(x, obj) for x in c.args)
+    if c.op == "call" and c.args[0] is glob("builtins.bool") and len(c.args[1]) == 1:
+        return tests_warm_start(c.args[1][0], obj)
+    return False
+
+
 def _engine_history(ctx):
     """BackendEngine.__init__ receives the estimator (`base`) in the middle of its fit: what __setup assigned before it built the
     engine is state of this fit; anything else that is not configuration (in practice `backendEngine_`, the engine of the previous
@@ -143,11 +163,11 @@ def _engine_history(ctx):
 
     def guarded(e):
         lits = list(pc_literals(e.pc)) + ([e.data["cond"]] if e.kind == "branch" and isinstance(e.data.get("cond"), T) else [])
-        return any(contains(x, lambda s_: s_.op == "attr" and s_.args[1] == "warm_start" and s_.args[0] is base) for x in lits)
+        return any(tests_warm_start(x, base) for x in lits)
     n_reads = 0
     bad = {}
     def has_ws(c):
-        return contains(c, lambda s_: s_.op == "attr" and s_.args[1] == "warm_start" and s_.args[0] is base)
+        return tests_warm_start(c, base)
 
     def uses(t, g, out, seen):
         """(name, guarded) for every use of base.<name> in t; a value selected by `x if base.warm_start and .. else y` is guarded in x"""
@@ -353,7 +373,7 @@ def _fit_rules(ctx, A, cls, m, fi, r, params, cfg, is_subject):
         # warm_start guard: the influenced branch also tests warm_start, or the test itself runs under one
         def ws(ev_):
             lits = list(pc_literals(ev_.pc)) + [ev_.data.get("cond")] if ev_.kind == "branch" else list(pc_literals(ev_.pc))
-            return any(x is not None and contains(x, lambda s: s.op == "attr" and s.args[1] == "warm_start") for x in lits)
+            return any(x is not None and tests_warm_start(x) for x in lits)
         infl = [b for b in infl if not ws(b)]
         if how.startswith("getattr") and not infl and r.final is not None:
             # the value an earlier fit left (not just its presence) flows into the state this fit stores
@@ -384,7 +404,7 @@ def _fit_rules(ctx, A, cls, m, fi, r, params, cfg, is_subject):
         # attributes that sklearn's validate_data(self, ...) sets are written by a preceding validate call
         if a in ("n_features_in_", "feature_names_in_") and any(dominates(v_, e) for v_ in validates):
             continue
-        if any(contains(x, lambda s: s.op == "attr" and s.args[1] == "warm_start") for x in e.pc):
+        if any(tests_warm_start(x) for x in e.pc):
             continue
         _note_or_ob(ctx, is_subject, "R19.3", e.func, e.node, False,
                     f"{cname}.fit reads '{a}' before any write in this fit: only an earlier fit can have set it, so the "
@@ -421,7 +441,7 @@ def _fit_rules(ctx, A, cls, m, fi, r, params, cfg, is_subject):
         pre = _prefit_container(holder, r.self_term, a)
         if not pre:
             continue
-        if any(contains(x, lambda s: s.op == "attr" and s.args[1] == "warm_start") for x in e.pc):
+        if any(tests_warm_start(x) for x in e.pc):
             continue
         seen_m.add((a, e.func))
         _note_or_ob(ctx, is_subject, "R19.3", e.func, e.node, False,
